@@ -191,7 +191,7 @@ func init() {
 	Checks["C05"] = func(c *Ctx) {
 		n5 := pick(c, 6, 8)
 		permLimit := pick(c, 4, 4)
-		c.Cov.Rule = "states = all states of the forward BFS with N<=Nmax (de-duplicated on concrete dumps); for every state and every non-empty set S of live leaves, every encoding from the closed family {direct proof in every permutation of S (|S|<=PermLimit, else sorted/reversed/rotated) with 0..2 trailing unused proof hashes, AddProof of every two-part split of S, GetProofSubset of the all-live proof} that Verify accepts is applied with k in {0,1,2} additions to fresh replays of the state's history on Stump, Pollard, full MapPollard (TR 0, 63), partial MapPollard with the leaves cached beforehand (TR 0, 63), partial MapPollard after Verify(remember) of the same encoding (TR 0, 3) and NewMapPollardFromRoots; roots and leaf count must equal the reference for alive - S plus the additions; a second pass takes the states whose history contains one serialize/restore of the forest (so that restored forests that evolved further are covered) with the direct encodings; non-trivial = accepted non-canonical encodings applied"
+		c.Cov.Rule = "states = all states of the forward BFS with N<=Nmax (de-duplicated on concrete dumps); for every state and every non-empty set S of live leaves, every encoding from the closed family {direct proof in every permutation of S (|S|<=PermLimit, else sorted/reversed/rotated) with 0..2 trailing unused proof hashes, AddProof of every two-part split of S, GetProofSubset of the all-live proof} that Verify accepts is applied with k in {0,1,2} additions to fresh replays of the state's history on Stump, Pollard, full MapPollard (TR 0, 63), partial MapPollard with the leaves cached beforehand (TR 0, 63), partial MapPollard after Verify(remember) of the same encoding (TR 0, 3) and NewMapPollardFromRoots; roots and leaf count must equal the reference for alive - S plus the additions; a second pass takes the states whose history contains one serialize/restore of the forest (so that restored forests that evolved further are covered) with the direct encodings; a third pass takes structured taller states [add N][delete S, add k] (N around 8 and 16, S singles / sibling pairs / aligned subtrees and their near-complements) with every live singleton and adjacent pair; non-trivial = accepted non-canonical encodings applied"
 		c.Cov.Bound["Nmax"] = n5
 		c.Cov.Bound["PermLimit"] = permLimit
 		c.Cov.Bound["instances"] = len(encInsts)
@@ -297,6 +297,95 @@ func init() {
 		nrt := pick(c, 4, 5)
 		c.Cov.Bound["restore_pass.Nmax"] = nrt
 		pass(nrt, 1, []int{1, 2, 4, 6}, false)
+		// structured taller states: [add N][delete S, add k] with S from a closed family, then every
+		// live singleton and adjacent pair with the direct encodings (rows 3-4, forests that grow
+		// past a power of two after deletions left gaps)
+		tallNs := pick(c, []int{8, 9}, []int{8, 9, 15, 16, 17})
+		c.Cov.Bound["structured_states.N"] = fmt.Sprint(tallNs)
+		{
+			type ttask struct {
+				hist []Op
+				s    ref.State
+			}
+			var tts []ttask
+			for _, N := range tallNs {
+				seen := map[string]bool{}
+				var sets [][]int
+				add := func(x []int) {
+					if len(x) > 0 && !seen[fmt.Sprint(x)] {
+						seen[fmt.Sprint(x)] = true
+						sets = append(sets, x)
+					}
+				}
+				for i := 0; i < N; i++ {
+					add([]int{i})
+				}
+				for i := 0; i+1 < N; i += 2 {
+					add([]int{i, i + 1})
+				}
+				for h := uint(1); (1 << h) <= N; h++ {
+					for a := 0; a+(1<<h) <= N; a += 1 << h {
+						var x []int
+						for y := a; y < a+(1<<h); y++ {
+							x = append(x, y)
+						}
+						add(x)
+						if len(x) > 2 {
+							add(x[1:])
+							add(x[:len(x)-1])
+						}
+					}
+				}
+				for _, S := range sets {
+					for k := 0; k <= 2; k++ {
+						h := []Op{{Kind: "block", Adds: N}, {Kind: "block", Dels: S, Adds: k}}
+						st := ref.State{}.Apply(nil, N).Apply(S, k)
+						tts = append(tts, ttask{h, st})
+					}
+				}
+			}
+			c.Cov.AddStates(int64(len(tts)))
+			instIdx := []int{0, 1, 2, 3, 4, 6}
+			ok := parallelFor(c, len(tts), func(i int) {
+				tk := tts[i]
+				live := tk.s.Live()
+				var lsets [][]int
+				for j, a := range live {
+					lsets = append(lsets, []int{a})
+					if j+1 < len(live) {
+						lsets = append(lsets, []int{a, live[j+1]}, []int{live[j+1], a})
+					}
+				}
+				for _, set := range lsets {
+					for junk := 0; junk <= 1; junk++ {
+						acc := false
+						for _, k := range []int{0, 1} {
+							for _, ii := range instIdx {
+								a, vs := evalEncoding(encCase{Hist: tk.hist, Set: set, Enc: "direct", Junk: junk, Adds: k, Inst: ii})
+								if !a {
+									break
+								}
+								acc = true
+								atomic.AddInt64(&applied, 1)
+								c.Col.Add(vs...)
+							}
+							if !acc {
+								break
+							}
+						}
+						if acc {
+							atomic.AddInt64(&accepted, 1)
+							if junk > 0 || len(set) > 1 {
+								c.Cov.Distinct(fmt.Sprintf("%s|%v|%d", histStr(tk.hist), set, junk))
+							}
+						}
+					}
+				}
+			})
+			if !ok {
+				c.Cov.NotExhaustive("deadline reached during the structured-state pass")
+			}
+		}
 		c.Cov.AddTransitions(applied)
 		c.Cov.AddEvals(applied)
 		c.Cov.SetExtra("accepted_encodings", accepted)
